@@ -76,4 +76,20 @@ theorem audit_not_stale :
     audited.all (fun a => sites.any fun s =>
       a.kind == s.kind && a.file == s.file && a.func == s.func && a.expr == s.expr && a.n == s.n) = true := by decide
 
+/-! ### state a build session carries from one project to the next (build/build.go `Session`)
+
+  Audited by reading: `importPaths` and `packages` cache path resolution and package metadata (functions of the file
+  system and the build context only, the same for every project); `sources` (ASTs, simplified in place while a project is
+  prepared) and `UpToDateArchives` (compiled for one project's instance set) are project-dependent and must start empty
+  for every project — then `session_independent` / `session_project_context` apply. A new map field, or a reset that
+  disappears from the head of `BuildProject`, breaks these obligations. -/
+
+def sessionAudited : List (String × Bool) :=      -- (field, project-dependent?)
+  [("UpToDateArchives", true), ("importPaths", false), ("packages", false), ("sources", true)]
+
+theorem session_fields_audited : sessionMapFields = sessionAudited.map (·.1) := by decide
+
+theorem project_state_reset :
+    (sessionAudited.filter (·.2)).all (fun f => sessionResetFields.contains f.1) = true := by decide
+
 end GV.Props.C17
